@@ -21,7 +21,7 @@ def serve_one(req):
     sandbox.activate(req['sandbox'])
     from smartquery import SqParser
     from checks import c11
-    names = c11.fresh_names(req['template']) if req['entry'] == 'eval' else None
+    names = c11.fresh_names(req['template']) if (req['entry'] == 'eval' and req['template'] >= 0) else None       # template -1: eval(text) with names omitted
     return c11.do_call(SqParser(), req['entry'], req['src'], names, req['budget'], req['k'])
 
 
